@@ -36,15 +36,19 @@ type c13Scalars struct {
 }
 
 type c13Times struct {
-	D   time.Duration            `dials:"d"`
-	PD  *time.Duration           `dials:"pd"`
-	T   time.Time                `dials:"t"`
-	IP  net.IP                   `dials:"ip"`
-	LD  []time.Duration          `dials:"ld"`
-	MD  map[string]time.Duration `dials:"md"`
-	MT  map[string]time.Time     `dials:"mt"`
-	LIP []net.IP                 `dials:"lip"`
-	Max time.Duration            `dials:"max-wait" json:"maxWaitJ" toml:"max_wait_t"`
+	D   time.Duration             `dials:"d"`
+	PD  *time.Duration            `dials:"pd"`
+	T   time.Time                 `dials:"t"`
+	IP  net.IP                    `dials:"ip"`
+	LD  []time.Duration           `dials:"ld"`
+	MD  map[string]time.Duration  `dials:"md"`
+	MT  map[string]time.Time      `dials:"mt"`
+	LIP []net.IP                  `dials:"lip"`
+	Max time.Duration             `dials:"max-wait" json:"maxWaitJ" toml:"max_wait_t"`
+	LT  []time.Time               `dials:"lt"`
+	PLD *[]time.Duration          `dials:"pld"`
+	PPD **time.Duration           `dials:"ppd"`
+	PMD *map[string]time.Duration `dials:"pmd"`
 }
 
 type c13Colls struct {
@@ -152,7 +156,7 @@ type c13SliceTime struct {
 type c13Corpus struct {
 	name  string
 	zero  any
-	class string // "" supported | embtagged | embflat | emb2 | mapstruct | sliceptr | slicetime
+	class string // "" supported | embtagged | embflat | emb2 | mapstruct | sliceptr
 }
 
 var c13Types = []c13Corpus{
@@ -163,12 +167,12 @@ var c13Types = []c13Corpus{
 	{"FmtTags", c13FmtTags{}, ""},
 	{"SliceStruct", c13SliceStruct{}, ""},
 	{"Inner", c13Inner{}, ""},
+	{"SliceTime", c13SliceTime{}, ""},
 	{"EmbTagged", c13EmbTagged{}, "embtagged"},
 	{"EmbFlat", c13EmbFlat{}, "embflat"},
 	{"Emb2", c13Emb2{}, "emb2"},
 	{"MapStruct", c13MapStruct{}, "mapstruct"},
 	{"SlicePtr", c13SlicePtr{}, "sliceptr"},
-	{"SliceTime", c13SliceTime{}, "slicetime"},
 }
 
 var (
